@@ -7,7 +7,8 @@
 //	                    together, failing reader) and a scheduled consumer
 //	    kind "direct":  the parallel hash writer itself (verif export) with six
 //	                    recording hashes: block decomposition + sums
-//	    kind "combine", "tiny": CombineCrc32 / CombineCrc32c / CombineCrc64Nvme
+//	    kind "combine", "tiny", "bigcombine": CombineCrc32 / CombineCrc32c / CombineCrc64Nvme
+//	                    (bigcombine: second operand of >= 2^31 zero bytes, reference by streaming)
 //	hashwriter proto <schedules.ndjson> <trace.ndjson>
 //	    gated replay of TLC's worker schedules on the parallel hash writer with
 //	    recording hash doubles that read their block late (at the end of the gate)
@@ -37,6 +38,7 @@ import (
 	"io"
 	"math/rand"
 	"os"
+	"sort"
 	"strconv"
 	"sync"
 	"time"
@@ -134,6 +136,10 @@ type kase struct {
 	LenB     int      `json:"lenb"`
 	A        []string `json:"a"`
 	B        []string `json:"b"`
+	// bigcombine: second operand of Q*2^30+D zero bytes
+	Q      int  `json:"q"`
+	D      int  `json:"d"`
+	Eval64 bool `json:"eval64"`
 	// proto
 	W     int   `json:"w"`
 	Nb    int   `json:"nb"`
@@ -333,6 +339,131 @@ func runTiny(k *kase) map[string]any {
 		"crc32": ok32, "crc32c": ok32c, "crc64nvme": ok64}
 }
 
+// ------------------------------------------------------------ big combine cases
+
+// The reference for a second operand of L zero bytes is obtained by streaming
+// L zero bytes through the stdlib CRC, once from the initial state (= crc(B))
+// and once continuing from crc(A) (= crc(A||B), the streaming definition of a
+// CRC over the concatenation).  Nothing here uses the combine under test.
+type bigKey struct {
+	variant int // 0 crc32, 1 crc32c, 2 crc64nvme
+	a       string
+	l       int64
+}
+
+var bigRef = map[bigKey]uint64{}
+
+func bigLen(k *kase) int64   { return int64(k.Q)<<30 + int64(k.D) }
+func bigA(k *kase) []byte    { return content(k.Content, k.LenA, false) }
+func bigAKey(k *kase) string { return fmt.Sprintf("%s/%d", k.Content, k.LenA) }
+
+func crcUpdate(variant int, st uint64, p []byte) uint64 {
+	switch variant {
+	case 0:
+		return uint64(crc32.Update(uint32(st), crc32.IEEETable, p))
+	case 1:
+		return uint64(crc32.Update(uint32(st), castagnoli, p))
+	}
+	return crc64.Update(st, nvmeTable, p)
+}
+
+// streamZeros continues state st over zero bytes and reports the state at
+// every length of lens (ascending).
+func streamZeros(variant int, st uint64, lens []int64) map[int64]uint64 {
+	zeros := make([]byte, 4<<20)
+	out := map[int64]uint64{}
+	var done int64
+	for _, l := range lens {
+		for done < l {
+			n := int64(len(zeros))
+			if l-done < n {
+				n = l - done
+			}
+			st = crcUpdate(variant, st, zeros[:n])
+			done += n
+		}
+		out[l] = st
+	}
+	return out
+}
+
+func prepareBig(cases []*kase) {
+	type stream struct {
+		variant int
+		a       string
+		start   uint64
+		lens    map[int64]bool
+	}
+	streams := map[string]*stream{}
+	add := func(variant int, a string, start uint64, l int64) {
+		key := fmt.Sprintf("%d|%s", variant, a)
+		s := streams[key]
+		if s == nil {
+			s = &stream{variant: variant, a: a, start: start, lens: map[int64]bool{}}
+			streams[key] = s
+		}
+		s.lens[l] = true
+	}
+	for _, k := range cases {
+		if k.Kind != "bigcombine" {
+			continue
+		}
+		a, l := bigA(k), bigLen(k)
+		for v := 0; v < 3; v++ {
+			if v == 2 && !k.Eval64 {
+				continue
+			}
+			add(v, "", 0, l)                          // crc(B)
+			add(v, bigAKey(k), crcUpdate(v, 0, a), l) // crc(A||B)
+		}
+	}
+	var mu sync.Mutex
+	var wg sync.WaitGroup
+	sem := make(chan struct{}, 6)
+	for _, s := range streams {
+		wg.Add(1)
+		go func(s *stream) {
+			defer wg.Done()
+			sem <- struct{}{}
+			defer func() { <-sem }()
+			lens := make([]int64, 0, len(s.lens))
+			for l := range s.lens {
+				lens = append(lens, l)
+			}
+			sort.Slice(lens, func(i, j int) bool { return lens[i] < lens[j] })
+			res := streamZeros(s.variant, s.start, lens)
+			mu.Lock()
+			for l, st := range res {
+				bigRef[bigKey{s.variant, s.a, l}] = st
+			}
+			mu.Unlock()
+		}(s)
+	}
+	wg.Wait()
+}
+
+func runBig(k *kase) map[string]any {
+	a, l := bigA(k), bigLen(k)
+	flag := func(v int) bool {
+		crcB, ok1 := bigRef[bigKey{v, "", l}]
+		crcAB, ok2 := bigRef[bigKey{v, bigAKey(k), l}]
+		if !ok1 || !ok2 {
+			return false
+		}
+		crcA := crcUpdate(v, 0, a)
+		switch v {
+		case 0:
+			return bytes.Equal(checksumutils.CombineCrc32(be32(uint32(crcA)), be32(uint32(crcB)), l), be32(uint32(crcAB)))
+		case 1:
+			return bytes.Equal(checksumutils.CombineCrc32c(be32(uint32(crcA)), be32(uint32(crcB)), l), be32(uint32(crcAB)))
+		}
+		return bytes.Equal(checksumutils.CombineCrc64Nvme(be64(crcA), be64(crcB), l), be64(crcAB))
+	}
+	return map[string]any{"id": k.ID, "kind": "bigcombine", "q": k.Q, "d": k.D, "lena": k.LenA, "content": k.Content,
+		"eval64": k.Eval64, "gota": len(a), "gothi": int(l >> 30), "gotlo": int(l & (1<<30 - 1)),
+		"crc32": flag(0), "crc32c": flag(1), "crc64nvme": k.Eval64 && flag(2)}
+}
+
 func runCases(in, out string, par int) {
 	f, err := os.Open(in)
 	must(err)
@@ -349,6 +480,7 @@ func runCases(in, out string, par int) {
 		cases = append(cases, k)
 	}
 	must(sc.Err())
+	prepareBig(cases)
 	results := make([]map[string]any, len(cases))
 	var wg sync.WaitGroup
 	next := make(chan int)
@@ -367,6 +499,8 @@ func runCases(in, out string, par int) {
 					results[i] = runCombine(k)
 				case "tiny":
 					results[i] = runTiny(k)
+				case "bigcombine":
+					results[i] = runBig(k)
 				default:
 					must(fmt.Errorf("unknown case kind %q", k.Kind))
 				}
